@@ -353,6 +353,7 @@ class CSSImportRule(cssrule.CSSRule):
             a :class:`~cssutils.stylesheets.MediaList` or string
         """
         self._checkReadonly()
+        old = getattr(self, '_media', None)
         if isinstance(media, str):
             self._media = cssutils.stylesheets.MediaList(
                 mediaText=media, parentRule=self
@@ -360,6 +361,9 @@ class CSSImportRule(cssrule.CSSRule):
         else:
             media._parentRule = self
             self._media = media
+        if old is not None and old is not self._media:
+            # the replaced list is no part of this rule anymore
+            old._parentRule = None
 
         # update seq
         ihref = 0
